@@ -14,6 +14,8 @@ package main
 import (
 	"context"
 	"fmt"
+	"os"
+	"strconv"
 	"sort"
 	"strings"
 	"sync"
@@ -100,6 +102,7 @@ type sched struct {
 	timeout   time.Duration
 	yields    map[string]bool // yield points at which threads are gated (srv)
 	gatePrepark bool          // probe mode: hold a thread right before cond.Wait
+	opwg        sync.WaitGroup // the operation goroutines of this case
 }
 
 var (
@@ -205,11 +208,20 @@ func (s *sched) findHelperBlocking(tid int, hctx context.Context) *schedHelper {
 	return nil
 }
 
+// schedTimeout bounds how long the scheduler waits for a goroutine that must arrive at a hook
+// point; it only ever matters when something hangs (a lost wake-up), so it is generous.
+func schedTimeout() time.Duration {
+	if v, err := strconv.Atoi(os.Getenv("VERIF_SCHED_TIMEOUT_MS")); err == nil && v > 0 {
+		return time.Duration(v) * time.Millisecond
+	}
+	return 8 * time.Second
+}
+
 func newSched(subject schedSubject, programs [][]*Sexp) *sched {
 	activeSchedMu.Lock()
 	schedEpoch++
 	s := &sched{epoch: schedEpoch, events: make(chan schedEvent, 4096), parked: map[*sync.Cond][]int{},
-		condNames: map[*sync.Cond]string{}, current: -1, subject: subject, timeout: 3 * time.Second,
+		condNames: map[*sync.Cond]string{}, current: -1, subject: subject, timeout: schedTimeout(),
 		yields: map[string]bool{}}
 	for i, p := range programs {
 		s.threads = append(s.threads, &schedThread{id: i, ops: p, grant: make(chan struct{}, 1)})
@@ -238,6 +250,16 @@ func (s *sched) close() {
 		case t.grant <- struct{}{}:
 		default:
 		}
+	}
+	// Wait until the operation goroutines of this case have ended: the signal/broadcast hook
+	// points carry no context, so a goroutine of this case that was still blocked (and now
+	// completes, e.g. a released BlockingAdd that performs its add) must not report into the
+	// scheduler of the next case. Bounded, so a goroutine that is really stuck cannot hang the run.
+	done := make(chan struct{})
+	go func() { s.opwg.Wait(); close(done) }()
+	select {
+	case <-done:
+	case <-time.After(2 * time.Second):
 	}
 }
 
@@ -429,7 +451,9 @@ func (s *sched) startOp(t *schedThread) {
 	t.cancelled = false
 	t.state = tRunning
 	ctx := t.ctx
+	s.opwg.Add(1)
 	go func() {
+		defer s.opwg.Done()
 		res := func() (out string) {
 			defer func() {
 				if r := recover(); r != nil {
@@ -505,7 +529,7 @@ func (s *sched) processHelper(tid int, h *schedHelper) (string, []int) {
 				delete(p, ev.tid)
 				woke = append(woke, ev.tid)
 			default:
-				s.note("unexpected-event-during-fire")
+				s.note(fmt.Sprintf("unexpected-event-during-fire:%d:%d", ev.kind, ev.tid))
 			}
 		case <-timer.C:
 			s.failed = "TIMEOUT(helper-fire)"
